@@ -677,6 +677,63 @@ def multi_part(check):
                         broken="correspondence L2 reconcile across crates (theorems TsV.C09.C09_reconcile_*)")
 
 
+def go_acronym_part(check):
+    """Go with `uppercase_acronyms`: the acronym pass is applied to definition names and to formatted type strings alike, so
+    a type whose name contains a configured acronym must be spelled identically where it is defined and wherever it is
+    used - plain, under Vec / Option, as a map key or value, as a generic argument (no serde(rename) involved)"""
+    rng = check.rng
+    g = Gen(rng)
+    ts = [m_path("typeshare")]
+    pool = ["AccountId", "ApiUrl", "UserId", "HttpApi", "IdCard", "UrlId", "Plain"]
+    ncases = 120 if check.thorough else 24
+    mreqs, rreqs, meta = [], [], []
+    for k in range(ncases):
+        names = rng.sample(pool, 3)
+        acr = rng.sample(["ID", "URL", "API", "HTTP"], rng.randint(1, 3))
+        shapes = [lambda t: t, lambda t: t_path("Vec", [t]), lambda t: t_path("Option", [t]),
+                  lambda t: t_path("HashMap", [t, t_path("String")]), lambda t: t_path("HashMap", [t_path("String"), t]),
+                  lambda t: t_path("Wrapper", [t]), lambda t: t_path("Pair", [t, t_path("String")]),
+                  lambda t: t_path("Wrapper", [t_path("Vec", [t])])]
+        items = [{"kind": "struct", "attrs": list(ts), "ident": n, "generics": [], "fields": ("named", [field([], "v", t_path("u8"))])} for n in names]
+        items.append({"kind": "struct", "attrs": list(ts), "ident": "Wrapper", "generics": [("ty", "T")], "fields": ("named", [field([], "inner", t_path("T"))])})
+        items.append({"kind": "struct", "attrs": list(ts), "ident": "Pair", "generics": [("ty", "A"), ("ty", "B")],
+                      "fields": ("named", [field([], "a", t_path("A")), field([], "b", t_path("B"))])})
+        fs = [field([], "f%d" % i, rng.choice(shapes)(t_path(rng.choice(names)))) for i in range(6)]
+        items.append({"kind": "struct", "attrs": list(ts), "ident": "Holder", "generics": [], "fields": ("named", fs)})
+        f = {"attrs": [], "items": items}
+        cfg = dict(cfg_of("go", ""), uppercase_acronyms=acr)
+        m, r, texts = l2.requests("go", cfg, [{"crate": "", "file_name": "out", "path": "src/lib.rs", "file": f}], g)
+        mreqs.append(m)
+        rreqs.append(r)
+        meta.append((acr, texts[0]))
+    mans = [l2.norm(a) for a in model(mreqs)]
+    rans = [l2.norm(a) for a in runner(rreqs)]
+    mismatch = None
+    for (acr, text), ma, ra in zip(meta, mans, rans):
+        check.saw(("go-acronyms", tuple(acr), text), nontrivial=True)
+        check.count("go-acronym-programs")
+        if "ok" in ra:
+            out = ra["ok"][""]
+            defs = set(re.findall(r"^type (\w+)[ \[]", out, re.M))
+            used = set()
+            for line in out.split("\n"):
+                mm = re.match(r"^\t(\w+) (.+?) `json:", line)
+                if mm:
+                    used |= set(re.findall(r"[A-Za-z_]\w*", mm.group(2)))
+            undefined = sorted(u for u in used if u not in defs and u not in BUILTIN["go"] and u not in ("T", "A", "B"))
+            if undefined:
+                check.violation("go with uppercase_acronyms %s refers to %s, which the file does not define (defined: %s)" % (acr, undefined, sorted(defs)),
+                                case={"lang": "go", "uppercase_acronyms": acr, "source": text}, impl=ra, model=ma, failing_input=True)
+                return
+        if ma != ra and mismatch is None:
+            mismatch = (acr, text, ma, ra)
+    if mismatch:
+        acr, text, ma, ra = mismatch
+        check.violation("go generation with uppercase_acronyms %s differs from the model" % acr,
+                        case={"lang": "go", "uppercase_acronyms": acr, "source": text}, impl=ra, model=ma, failing_input=False,
+                        broken="correspondence L2 Go acronym pass (Go.convertAcronyms)")
+
+
 def classes_of(c):
     return sorted(set().union(*c["expected"].values())) if c["expected"] else []
 
@@ -735,6 +792,8 @@ def run(check):
     replay_witnesses(check)
     if not check.violations:
         multi_part(check)
+    if not check.violations:
+        go_acronym_part(check)
     check.assumptions += [
         "scope of the theorems: single-file mode, no type mappings / type overrides / decorators, Go without uppercase_acronyms, "
         "consts excluded (the property text does not list const types; their types are not reconciled at all)",
